@@ -300,11 +300,12 @@ def signature(stderr_text):
 
 
 class Death:
-    def __init__(self, case, sig, report, cfgname):
+    def __init__(self, case, sig, report, cfgname, extra=()):
         self.case = case
         self.sig = sig
         self.report = report
         self.cfgname = cfgname
+        self.extra = list(extra)
 
 
 class RunResult:
@@ -328,13 +329,13 @@ class RunResult:
                 self.counters[k] = self.counters.get(k, 0) + v
 
 
-def _parse_stdout(out, cfgname, res, want_samples=True):
+def _parse_stdout(out, cfgname, res, want_samples=True, extra=()):
     done = None
     for line in out.splitlines():
         if line.startswith("FAIL "):
             m = re.match(r"FAIL case=(\d+) key=(\S+) detail=(.*)", line)
             if m:
-                res.fails.append((cfgname, int(m.group(1)), m.group(2), m.group(3)))
+                res.fails.append((cfgname, int(m.group(1)), m.group(2), m.group(3), list(extra)))
         elif line.startswith("SAMPLE "):
             if want_samples and len(res.samples) < 12:
                 res.samples.append(cfgname.split(".")[0] + " " + line[7:][:1200])
@@ -357,7 +358,7 @@ def run_chunk(binary, cfgname, seed, lo, hi, extra, workdir, tag, cpu, triage_bu
         cmd = [binary, "--seed", str(seed), "--from", str(cur), "--to", str(hi), "--hashes", hashfile,
                "--cpu", str(cpu)] + extra
         rc, out, err, wall_to = run_proc(cmd, stack_mb=stack_mb)
-        done = _parse_stdout(out, cfgname, res)
+        done = _parse_stdout(out, cfgname, res, extra=extra)
         if os.path.exists(hashfile):
             a = array.array("Q")
             with open(hashfile, "rb") as f:
@@ -373,7 +374,7 @@ def run_chunk(binary, cfgname, seed, lo, hi, extra, workdir, tag, cpu, triage_bu
             break
         if rc == 76 and done is not None:
             # LeakSanitizer at exit, after all cases ran: not attributable to a case by itself
-            res.deaths.append(Death(-1, signature(err), err[-8000:], cfgname))
+            res.deaths.append(Death(-1, signature(err), err[-8000:], cfgname, extra))
             break
         # died somewhere
         m = None
@@ -401,11 +402,11 @@ def run_chunk(binary, cfgname, seed, lo, hi, extra, workdir, tag, cpu, triage_bu
         cmd1 = [binary, "--seed", str(seed), "--only", str(case), "--cpu", str(cpu)] + extra
         rc1, out1, err1, wto1 = run_proc(cmd1, wall=max(120, cpu * 6), stack_mb=stack_mb)
         r1 = RunResult()
-        _parse_stdout(out1, cfgname, r1, want_samples=False)
+        _parse_stdout(out1, cfgname, r1, want_samples=False, extra=extra)
         if rc1 == 0 and not r1.fails:
             # not reproducible alone: record as such (flaky deaths are never silently dropped)
             sig = "nonrepro:" + signature(err)
-            res.deaths.append(Death(case, sig, err[-8000:], cfgname))
+            res.deaths.append(Death(case, sig, err[-8000:], cfgname, extra))
         elif what == "MONITOR-FATAL" or (r1.fails and rc1 == 79):
             for f in r1.fails:
                 res.fails.append(f)
@@ -415,7 +416,7 @@ def run_chunk(binary, cfgname, seed, lo, hi, extra, workdir, tag, cpu, triage_bu
             if sig.startswith("timeout") and not timeout_is_violation:
                 res.inconclusive.append("%s: CPU watchdog on case %d" % (cfgname, case))
             else:
-                res.deaths.append(Death(case, sig, err1[-8000:], cfgname))
+                res.deaths.append(Death(case, sig, err1[-8000:], cfgname, extra))
         cur = case + 1
         restarts += 1
     res.cases = res.counters.get("cases", 0)
@@ -547,10 +548,9 @@ class Verdict:
     def absorb(self, res, cfgs_by_name, seed, extra_by_cfg=None, floor_cases=1):
         """Route every FAIL line and death of a RunResult through known-findings matching."""
         seen_keys = set()
-        for (cfgname, case, key, detail) in res.fails:
+        for (cfgname, case, key, detail, extra) in res.fails:
             payload = {"property": self.prop, "config": cfgs_by_name[cfgname].describe(), "seed": seed,
-                       "case": case, "key": key, "detail": detail,
-                       "extra": (extra_by_cfg or {}).get(cfgname, [])}
+                       "case": case, "key": key, "detail": detail, "extra": extra}
             self.failure(key, payload, "%s case=%d %s: %s" % (cfgname, case, key, detail[:400]))
             seen_keys.add(key)
         # keys counted by the harness but whose FAIL lines were capped
@@ -564,8 +564,7 @@ class Verdict:
                     self.known_hits[e["id"]][1] = max(self.known_hits[e["id"]][1], n)
         for d in res.deaths:
             payload = {"property": self.prop, "config": cfgs_by_name[d.cfgname].describe(), "seed": seed,
-                       "case": d.case, "key": d.sig, "report": d.report[-3000:],
-                       "extra": (extra_by_cfg or {}).get(d.cfgname, [])}
+                       "case": d.case, "key": d.sig, "report": d.report[-3000:], "extra": d.extra}
             self.failure(d.sig, payload, "%s case=%d %s" % (d.cfgname, d.case, d.sig))
         self.inconclusive += res.inconclusive
         if res.cases < floor_cases:
